@@ -212,7 +212,7 @@ func c08empty(c *an.Ctx) {
 			case *ssa.MakeMap:
 				fresh = true
 			case *ssa.Call:
-				if f := an.StaticCallee(v); f != nil && (f.Name() == "New" || f.Name() == "newInFlightPqueue") {
+				if f := an.StaticCallee(v); f != nil && (an.BaseName(f) == "New" || an.BaseName(f) == "newInFlightPqueue") {
 					fresh = true
 				}
 			}
@@ -240,7 +240,7 @@ func c08empty(c *an.Ctx) {
 		for _, st := range sel.States {
 			if st.Dir == types.RecvOnly {
 				if f := an.ChanField(an.Strip(st.Chan)); f != nil {
-					drained[f.Name()] = true
+					drained[an.FName(f)] = true
 				}
 			}
 		}
@@ -254,7 +254,7 @@ func c08empty(c *an.Ctx) {
 				continue
 			}
 			if pt, ok := ch.Elem().(*types.Pointer); ok && types.Identical(pt.Elem(), msgT) {
-				c.Check(drained[f.Name()], fn, "drains "+f.Name(), fn.Pos(), "", "Channel.Empty does not drain Channel."+f.Name()+": messages queued there survive the empty")
+				c.Check(drained[an.FName(f)], fn, "drains "+f.Name(), fn.Pos(), "", "Channel.Empty does not drain Channel."+f.Name()+": messages queued there survive the empty")
 			}
 		}
 	}
